@@ -20,7 +20,7 @@ pub fn config(cases: u32, seed: u64) -> Config {
         failure_persistence: None,
         rng_seed: RngSeed::Fixed(seed),
         rng_algorithm: RngAlgorithm::ChaCha,
-        max_shrink_iters: 4000,
+        max_shrink_iters: 1500,
         max_global_rejects: 1_000_000,
         ..Config::default()
     }
@@ -41,6 +41,8 @@ where
     let seed = ctx.stage_seed(stage);
     let mut runner = TestRunner::new(config(cases, seed));
     let target: RefCell<Option<String>> = RefCell::new(None);
+    // the first failing value as generated (reported if the shrunk one does not reproduce)
+    let first: RefCell<Option<S::Value>> = RefCell::new(None);
     let cell = RefCell::new(ctx);
     let result = runner.run(&strategy, |value| {
         let mut guard = cell.borrow_mut();
@@ -59,6 +61,7 @@ where
                             return Ok(());
                         }
                         *tgt = Some(f.sig.clone());
+                        *first.borrow_mut() = Some(value.clone());
                         ctx.frozen = true;
                         Err(TestCaseError::fail(f.sig))
                     }
@@ -75,7 +78,20 @@ where
         // Re-run the oracle on the shrunk value to obtain the final description.
         match test(ctx, &minimal) {
             Outcome::Fail(f) => ctx.violation(stage, &f),
-            _ => ctx.note(format!("stage {stage}: shrunk input no longer fails (flaky?)")),
+            _ => {
+                // fall back to the input as generated; report it only if it fails again
+                let original = first.borrow().clone();
+                match original.map(|v| test(ctx, &v)) {
+                    Some(Outcome::Fail(f)) => {
+                        ctx.note(format!("stage {stage}: shrinking lost the failure; reporting the unshrunk input"));
+                        ctx.violation(stage, &f);
+                    }
+                    _ => ctx.note(format!(
+                        "stage {stage}: a failure with signature `{}` was seen once and did not reproduce (neither shrunk nor as generated); not reported",
+                        target.borrow().clone().unwrap_or_default()
+                    )),
+                }
+            }
         }
     } else if let Err(TestError::Abort(reason)) = result {
         ctx.note(format!("stage {stage}: proptest aborted: {reason}"));
